@@ -11,3 +11,8 @@ add('C15', 'model_checking',
     'Bounded-free symbolic model checking of the real Timer methods: every method is executed symbolically (LLVM IR of src/timer.cpp) from an arbitrary timer state and compared by SMT with a specification of one step; Skip is compared with the closed form of k ticks and with the step lemma Skip(s,k)=Skip(Tick(s),k-1) for every 64-bit k up to the reported horizon. Histories of any length follow by one-step induction (paper).',
     'Assumes count_mode<4 and scale==0 (asserted by the code); interrupt handler modelled as an event. Trusted: clang IR generation, the llsym executor (validated each run against the natively compiled timer.cpp on random concrete states), z3/cvc5.',
     'symbolic execution of LLVM IR + SMT (z3/cvc5): one-step specification and skip lemmas', 'DESIGN.md section 2 C15')
+
+add('C14', 'model_checking',
+    'Symbolic model checking of every real Apbp/DataChannel method (LLVM IR of src/apbp.cpp, including the lock_guard bodies) from an arbitrary mailbox/semaphore state satisfying the invariant signal == ((semaphore & ~mask) != 0): post-state, return value and the exact set of handler events are compared by SMT with the apbp.md handshake; the invariant is re-proved after every operation, which extends the result to all operation sequences by induction.',
+    'Assumes handlers installed and channel index in 0..2 (enumerated); pthread mutex calls are stubs (thread interleavings are C19). The DSP-side status words and host facade are thin std::bind closures over these methods (covered structurally by C12 when built). Trusted: clang IR generation, llsym (validated per run against native apbp.cpp), z3/cvc5.',
+    'symbolic execution of LLVM IR + SMT: one-step specification with inductive invariant', 'DESIGN.md section 2 C14')
